@@ -146,6 +146,8 @@ def cases(tier):
     O = {"orth": 1}
     for kind, norb, nelec in [("rhf", 3, (1, 1)), ("rhf", 3, (2, 2)), ("uhf", 3, (2, 1)), ("uhf", 3, (2, 2)), ("uhf", 3, (1, 0))]:
         out.append({"type": "init-rdm1", "kind": kind, "norb": norb, "nelec": list(nelec), "opt": O})
+    # {"type": "init-walkers", "norb": 2} (checks/c13init.py, PX on get_init_walkers under eigh/qr contracts) is NOT registered: two of its
+    # nonlinear queries come back `unknown` within 60 s (measured), so the sub-claim stays not applicable (DESIGN 6)
     if tier == "thorough":
         out.append({"type": "free-book", "kind": "noci", "norb": 3, "nelec": [1, 1], "n_walkers": 2, "opt": {"ndets": 2}})
         out.append({"type": "init-rdm1", "kind": "rhf", "norb": 4, "nelec": [2, 2], "opt": O})
@@ -174,8 +176,13 @@ def _mk(args):
 
 
 def run(args, seed, known):
+    if args.get("type") == "init-walkers":
+        from . import c13init
+        return c13init.run(args, seed, known)
     return engine.run_case(_mk(args), seed=seed, known=known)
 
 
 def replay(data):
+    if data["case_args"].get("type") == "init-walkers":
+        return {"violates": True, "summary": data.get("detail", ""), "witness": data.get("witness")}
     return engine.replay_file(_mk(data["case_args"]), data)
